@@ -588,7 +588,10 @@ func scenarios(t *testing.T, r *mc.Run) (out []*mc.SchedOpts) {
 				if !strings.HasPrefix(n, "ReadFile") && !strings.HasPrefix(n, "WriteFile") {
 					continue
 				}
-				if !r.Thorough() && strings.Contains(n, "/processors/registry/") {
+				if strings.Contains(n, "/processors/registry/") {
+					// a failed read of a built-in processor definition ends the load at a
+					// point that depends on Go map order: the schedule tree would not be
+					// replayable; these faults are covered by the fault enumeration only
 					continue
 				}
 				add(fmt.Sprintf("probe-during-%s-via-%s-with-fault-at-fs#%d", pc.Name, ep, k+1), int64(k+1))
